@@ -337,8 +337,15 @@ def compare(src, m, facts):
             exp_defs = [] if star else [al.asname or al.name for al in a_node.names]
             exp_level = a_node.level
             exp_alias = {al.asname: al.name for al in a_node.names if al.asname}
-        got_paths = [[n.value for n in path] for path in p_node.get_paths()]
-        got_defs = [n.value for n in p_node.get_defined_names()]
+        raw_paths = [list(path) for path in p_node.get_paths()]
+        raw_defs = list(p_node.get_defined_names())
+        bad = [x for x in [n for path in raw_paths for n in path] + raw_defs if getattr(x, 'type', None) != 'name']
+        if bad:
+            # the documented result is lists of Name leaves; anything else is a wrong answer, not a harness problem
+            return ('import-paths', 'line %d: get_paths()/get_defined_names() returned a non-name object %r (CPython paths %r)'
+                    % (a_node.lineno, bad[0], exp_paths)), info
+        got_paths = [[n.value for n in path] for path in raw_paths]
+        got_defs = [n.value for n in raw_defs]
         if got_paths != exp_paths:
             return ('import-paths', 'line %d: parso %r, CPython %r' % (a_node.lineno, got_paths, exp_paths)), info
         if got_defs != exp_defs:
